@@ -34,6 +34,9 @@ def main():
         demo = os.path.join(d, "demo.py")
         rc0, _ = sh(["/venv/bin/python", demo], env=env, cwd=out)
         rc, o = sh(["git", "-C", wt, "apply", os.path.join(d, "patch.diff")])
+        if rc != 0:     # /repo has moved on since the change was written (later fix: commits): three-way merge on the recorded blobs
+            rc, o = sh(["git", "-C", wt, "apply", "-3", os.path.join(d, "patch.diff")])
+            sh(["git", "-C", wt, "reset", "-q"])
         assert rc == 0, "patch does not apply: " + o
         rc1, o1 = sh(["/venv/bin/python", demo], env=env, cwd=out)
         ver = {"demo_passes_without_change": rc0 == 0, "demo_fails_with_change": rc1 != 0, "demo_output_with_change": o1[-600:]}
